@@ -18,7 +18,7 @@ RULE = ("core: Hypothesis pairs of equally long pose sequences (1-12 poses drawn
         "archive read back by an independent reader and compared with the reference pipeline. Non-trivial = >= 2 "
         "poses and an error above tolerance or a special relative angle (cli: >= 1 processing option); distinct by SHA-1")
 ASSUMPTIONS = ["reference definitions in vf/refmodel.py (E = est^-1 ref, atan2 angle, Frobenius norms)",
-               "tolerances: lengths 64 eps (max|coord|+1) + 1e-12 |v|; angles 1e-7 rad; Frobenius 1e-9 + length tolerance"]
+               "tolerances: lengths 64 eps (max|coord|+1) + 1e-12 |v|; angles 1e-9 rad; Frobenius 1e-9 + length tolerance"]
 
 REL = {
     "full_transformation": PoseRelation.full_transformation,
@@ -30,6 +30,9 @@ REL = {
     "point_distance_error_ratio": PoseRelation.point_distance_error_ratio,
 }
 APE_RELS = [r for r in rm.RELATIONS if r != "point_distance_error_ratio"]
+# the quantifier names relative angles within 1e-12 of 0 and of pi: an implementation that loses them (arccos of the trace:
+# errors of 1e-8) does not compute "the geodesic angle" there; evo's own route is accurate to ~1e-15
+ANGLE_TOL = 1e-9
 
 
 def tol_for(relation, scale, value=0.0):
@@ -37,9 +40,9 @@ def tol_for(relation, scale, value=0.0):
     if relation in ("translation_part", "point_distance"):
         return ltol
     if relation == "rotation_angle_rad":
-        return 1e-7
+        return ANGLE_TOL
     if relation == "rotation_angle_deg":
-        return math.degrees(1e-7)
+        return math.degrees(ANGLE_TOL)
     if relation == "rotation_part":
         return 1e-9
     if relation == "full_transformation":
@@ -199,7 +202,7 @@ def run_cli_case(case, app="ape", extra_argv=()):
     fmt = case["fmt"]
     c = dict(case)
     if fmt == "kitti":
-        c["data"] = dict(case["data"], keep=1.0, jitter=0.0)
+        c["data"] = dict(case["data"], keep=1.0, jitter=0.0, est_dense=False)
         c["opts"] = dict(case["opts"], t_offset=0.0)
     ref, est = pipeline.make_inputs(c)
     files = pipeline.write_inputs(d, fmt, ref, est)
@@ -277,6 +280,9 @@ def _mk_cli_case(fmt, data, relation, align_mode, correct_scale, n_to_align, dow
             "t_max_diff": tmd, "t_offset": toff, "project": project, "change_unit": None}
     n = data["n"]
     t0, dt = data["t0"], data["dt"]
+    if isinstance(downsample, str):
+        # relative to the reference's pose count: reference not reduced, a denser estimate is
+        opts["downsample"] = n + (2 if downsample == "n+2" else 0)
     if crop is not None and fmt != "kitti":
         a, b = sorted((crop[0] % n, crop[1] % n))
         # bounds half-way between stamps, farther than t_max_diff + |offset| + jitter from every stamp of both files
@@ -284,9 +290,8 @@ def _mk_cli_case(fmt, data, relation, align_mode, correct_scale, n_to_align, dow
         opts["t_end"] = t0 + (b + 0.5) * dt if crop[3] else None
         if opts["t_start"] is not None and opts["t_start"] <= 0:
             opts["t_start"] = None
-        if opts["t_start"] is not None or opts["t_end"] is not None:
-            # with an offset it is not defined on which of the two time lines the crop bounds live
-            opts["t_offset"] = 0.0
+        # crop bounds live on the reference's time line (evo crops the reference, association then applies the offset):
+        # the reading the property's own mechanism list gives (load -> filter -> crop -> associate)
     if unit:
         rel = pipeline.REL_CLI[relation]
         if rel in ("translation_part", "point_distance"):
@@ -302,10 +307,10 @@ st_data = st.fixed_dictionaries({
     "n": st.integers(4, 40), "t0": st.sampled_from([10.0, 1.5e9, 1403636579.5]), "dt": st.sampled_from([0.1, 0.05, 1.0]),
     "seed": st.integers(0, 2 ** 32), "step": st.sampled_from([0.01, 0.5, 20.0]), "off": st.integers(0, 2), "still": st.sampled_from([0.0, 0.3]),
     "axis": st.lists(gen.unit_f, min_size=3, max_size=3), "keep": st.sampled_from([1.0, 0.8, 0.5]), "jitter": st.sampled_from([0.0, 0.001, 0.004]),
-    "scale": st.sampled_from([1.0, 1.0, 0.5, 7.25]), "noise": st.sampled_from([0.0, 0.01, 0.5])})
+    "scale": st.sampled_from([1.0, 1.0, 0.5, 7.25]), "noise": st.sampled_from([0.0, 0.01, 0.5]), "est_dense": st.sampled_from([False, False, True])})
 st_cli = st.builds(
     _mk_cli_case, st.sampled_from(["tum", "tum", "euroc", "kitti"]), st_data, st.sampled_from(sorted(pipeline.REL_CLI)),
-    st.sampled_from(["none", "align", "origin"]), st.booleans(), st.sampled_from([-1, -1, 3, 5, 10]), st.sampled_from([None, None, 3, 10, 1000]),
+    st.sampled_from(["none", "align", "origin"]), st.booleans(), st.sampled_from([-1, -1, 3, 5, 10]), st.sampled_from([None, None, 3, 10, 1000, "n", "n+2"]),
     st.sampled_from([None, None, [0.1, 5.0], [1.0, 0.5], [0.0, 0.0]]), st.sampled_from([0.01, 0.01, 0.005, 0.02]),
     st.sampled_from([0.0, 0.0, 0.5, -2.25]), st.one_of(st.none(), st.tuples(st.integers(0, 40), st.integers(0, 40), st.booleans(), st.booleans())),
     st.sampled_from([None, None, "xy", "xz", "yz"]), st.sampled_from([None, None, "mm", "cm", "km"]))
